@@ -4,6 +4,7 @@ import ITree.Model.Map
 import ITree.Model.KeyExp
 import ITree.Model.Lists
 import ITree.Model.Seg
+import ITree.Model.SegMach
 import ITree.Model.Check
 import ITree.Model.SegCheck
 import ITree.Model.Arena
@@ -382,24 +383,47 @@ def segWf (s : Seg Int) : Toks → String
     | _, _, _, _ => "0:badLV"
   | _ => "1"
 
+/-- the machine-integer transcription (`Model/SegMach.lean`) must complete and agree with the unbounded
+model on every request (`Props/SegMach.lean` proves it does inside the contract) -/
+def machInsertOK (s : Seg Int) (a b : Int) : Bool :=
+  Mach.insertMask s.layout a b == some (s.layout.insertMask a b) &&
+  Mach.bits (s.layout.insertMask a b) == some (bits (s.layout.insertMask a b))
+def machQueryOK (s : Seg Int) (a b : Int) : Bool :=
+  Mach.queryMask s.layout a b == some (s.layout.queryMask a b) &&
+  Mach.bits (s.layout.queryMask a b) == some (bits (s.layout.queryMask a b))
+
 def runSeg (op : Toks) (s? : Option (Seg Int)) (extra : Toks := []) : String :=
-  let answer := fun (_ : String) (out st tr : String) =>
-    answer (match s? with | some s => segWf s extra | none => "1") out st tr
+  let answerM := fun (mach : Bool) (out st tr : String) =>
+    answer (if !mach then "0:mach" else match s? with | some s => segWf s extra | none => "1") out st tr
+  let answer := fun (_ : String) (out st tr : String) => answerM true out st tr
   match op, s? with
   | ["masks", a, b], _ => match tokNat a, tokNat b with
-    | some a, some b => answer "1" s!"{placeMask a b} {visitMask a b}" "-" ""
+    | some a, some b =>
+      -- answered by the machine-integer transcription of the two loops
+      match Mach.placeMask a b, Mach.visitMask a b with
+      | some p, some v => answerM (p == placeMask a b && v == visitMask a b) s!"{p} {v}" "-" ""
+      | _, _ => answer "1" "FAULT" "-" ""
     | _, _ => "BAD"
   | ["new", lo, hi], _ => match tokInt lo, tokInt hi with
-    | some lo, some hi => match (Seg.new lo hi : Option (Seg Int)) with
-      | some s => answer "1" "some" (showSeg s) ""
-      | none => answer "1" "none" "-" ""
+    | some lo, some hi =>
+      match Mach.layoutNew lo hi with
+      | none => answer "1" "FAULT" "-" ""
+      | some none => answerM ((Seg.new lo hi : Option (Seg Int)).isNone) "none" "-" ""
+      | some (some l) =>
+        match Mach.count l with
+        | none => answer "1" "FAULT" "-" ""
+        | some c =>
+          let s : Seg Int := { layout := l, chunks := List.replicate c [] }
+          answerM ((Seg.new lo hi : Option (Seg Int)).map showSeg == some (showSeg s)) "some" (showSeg s) ""
     | _, _ => "BAD"
   | ["index", x], some s => match tokInt x with
-    | some x => answer "1" (toString (s.layout.index x)) (showSeg s) ""
+    | some x => match Mach.index s.layout x with
+      | some i => answerM (i == s.layout.index x) (toString i) (showSeg s) ""
+      | none => answer "1" "FAULT" (showSeg s) ""
     | none => "BAD"
   | ["insert", a, b, v, x], some s => match tokInt a, tokInt b, tokInt v, tokInt x with
     | some a, some b, some v, some x => match s.insert a b v x with
-      | some s' => answer "1" "ok" (showSeg s') ""
+      | some s' => answerM (machInsertOK s a b) "ok" (showSeg s') ""
       | none => answer "1" "FAULT" "-" ""
     | _, _, _, _ => "BAD"
   | ["query", a, b, t, n], some s => match tokInt a, tokInt b, tokInt t, tokInt n with
@@ -409,7 +433,7 @@ def runSeg (op : Toks) (s? : Option (Seg Int)) (extra : Toks := []) : String :=
       | some it =>
         let total := (s.chunks.map List.length).sum + 1
         match segTake (if n < 0 then total else n.toNat) s it [] with
-        | some (s', _, vals) => answer "1" (showInts vals) (showSeg s') ""
+        | some (s', _, vals) => answerM (machQueryOK s a b) (showInts vals) (showSeg s') ""
         | none => answer "1" "FAULT" "-" ""
     | _, _, _, _ => "BAD"
   | ["clear"], some s => answer "1" "ok" (showSeg s.clear) ""
